@@ -20,7 +20,10 @@ import (
 // (windows written to conc.in, expected verdict 1 per line in conc.obs). This is
 // conformance evidence and failing-input search for the LTS theorems, never a proof.
 
-const sidLin = 2
+const (
+	sidLin      = 2
+	sidLinChain = 21
+)
 
 // big is a multi-word value: every field is derived from one id, so a torn read is visible.
 type big struct {
@@ -59,40 +62,40 @@ type hist struct {
 
 func (h *hist) add(c call) { h.mu.Lock(); h.calls = append(h.calls, c); h.mu.Unlock() }
 
-// split one key's calls at quiescent points and emit windows for the verified checker
+// split one key's calls at quiescent points and emit them, as one chain per key, for the verified
+// exact windowed checker (lin_chain_step: the possible register contents are carried across cuts)
 func emitWindows(w *traceWriter, m *meta, focus string, key int, cs []call, earlier map[int64]bool, tag string) {
 	sort.Slice(cs, func(i, j int) bool { return cs[i].inv < cs[j].inv })
+	var wins [][]call
 	var win []call
 	var maxRet int64
-	flush := func() {
-		if len(win) == 0 {
-			return
-		}
-		if len(win) > 14 {
-			m.count("window_too_large_skipped")
-			win = nil
-			return
-		}
-		// fast necessary conditions in Go (the property's three corollaries); the Coq checker decides
-		op := &toks{}
-		op.I(2, 0, int64(len(win)))
-		for _, c := range win {
-			op.I(c.inv, c.ret, int64(c.kind), c.a, c.b)
-		}
-		w.O(op, ints(1))
-		m.count("lin_windows")
-		win = nil
-	}
 	for _, c := range cs {
 		if len(win) > 0 && c.inv > maxRet {
-			flush()
+			wins = append(wins, win)
+			win = nil
 		}
 		win = append(win, c)
 		if c.ret > maxRet {
 			maxRet = c.ret
 		}
 	}
-	flush()
+	if len(win) > 0 {
+		wins = append(wins, win)
+	}
+	w.T(sidLinChain, &toks{})
+	for _, wn := range wins {
+		if len(wn) > 14 {
+			m.count("window_too_large_chain_cut")
+			return
+		}
+		op := &toks{}
+		op.I(0, 0, int64(len(wn)))
+		for _, c := range wn {
+			op.I(c.inv, c.ret, int64(c.kind), c.a, c.b)
+		}
+		w.O(op, ints(1))
+		m.count("lin_windows")
+	}
 }
 
 // goCorollaries checks the property's own three consequences directly on a key's history.
@@ -845,7 +848,7 @@ func streamConc(o opts) {
 			sc := stressCfg{
 				conf: kioshun.Config{MaxSize: pick(rng, []int64{0, 2, 4, 8, 64}), ShardCount: pick(rng, []int{1, 2, 4}), EvictionPolicy: pol,
 					StatsEnabled: true, WriteBufferSize: pick(rng, []int{2, 4, 256}), WriteBatchSize: pick(rng, []int{1, 2, 64})},
-				workers: 4 + rng.Intn(9), keys: 3 + rng.Intn(6), ops: 300 + rng.Intn(700),
+				workers: pick(rng, []int{2, 3, 4, 4 + rng.Intn(9)}), keys: 3 + rng.Intn(10), ops: 300 + rng.Intn(700),
 				listeners: rng.Intn(2) == 0, reent: rng.Intn(3) == 0, async: r%4 == 1,
 			}
 			runStress(m, w, rng, sc, r)
